@@ -80,8 +80,10 @@ prop("C09", "exploration",
           "listings compared with a sequence model; non-trivial = at least one order-affecting operation; distinct = new plan "
           "digest reaching a new observation hash")
 prop("C10", "exploration",
-     quick=[("mixed_disk", "fast", 1200), ("tracks_disk", "fast", 500), ("mixed_disk_faulty", "fast", 600)],
+     quick=[("mixed_disk", "fast", 1200), ("tracks_disk", "fast", 500), ("mixed_disk_faulty", "fast", 600),
+            ("cross_disk", "fast", 500), ("table_disk", "fast", 400)],
      thorough=[("mixed_disk", "fast", 60000), ("tracks_disk", "fast", 30000), ("crates_disk", "fast", 30000),
+               ("cross_disk", "fast", 30000), ("table_disk", "fast", 20000),
                ("mixed_disk_faulty", "fast", 30000), ("members_disk_faulty", "fast", 15000)],
      relevant=["reload_ok"],
      rule="any workload on an on-disk library with close (handles released in seeded order, optional clock jump) and "
